@@ -56,6 +56,9 @@ SIGS = {
             'mvb': [_sl('v', '(', ')')],
             'many': [_sl('any')],
             'mmix': [_sl('s', '*'), _sl('o', '[', ']'), _sl('m'), _sl('o', '[', ']'), _sl('m')],
+            'mend': [_sl('m'), _sl('s', '*')],
+            'mtx': [_sl('m', mode='text'), _sl('m')],
+            'mmx': [_sl('m', mode='math'), _sl('m')],
         },
         'envs': {
             'ea': dict(sig=[_sl('m')], body=None), 'eo': dict(sig=[_sl('o', '[', ']')], body=None),
